@@ -20,20 +20,20 @@ import (
 // integration/helper_endpoints_test.go and the godoc of each New*/Write* function.  STUB (listed in evidence).
 
 type Resp struct {
-	Status   int
-	Header   http.Header
-	Body     string
-	JSON     map[string]interface{}
-	Redirect *url.URL   // parsed Location (without interpretation)
-	Query    url.Values // parameters delivered in the Location query
-	Fragment url.Values // parameters delivered in the Location fragment
-	FormPost url.Values // parameters delivered by the form_post page
+	Status     int
+	Header     http.Header
+	Body       string
+	JSON       map[string]interface{}
+	Redirect   *url.URL   // parsed Location (without interpretation)
+	Query      url.Values // parameters delivered in the Location query
+	Fragment   url.Values // parameters delivered in the Location fragment
+	FormPost   url.Values // parameters delivered by the form_post page
 	FormAction string
-	Err      error  // error value returned by fosite (nil on success)
-	ErrName  string // RFC error code derived from Err ("" on success)
-	Crashed  bool
-	Trace    []string // storage calls made by this request
-	TokenUse string   // introspection: kind reported by the IntrospectionResponder
+	Err        error  // error value returned by fosite (nil on success)
+	ErrName    string // RFC error code derived from Err ("" on success)
+	Crashed    bool
+	Trace      []string // storage calls made by this request
+	TokenUse   string   // introspection: kind reported by the IntrospectionResponder
 }
 
 // Params returns the response parameters wherever they were delivered.
@@ -77,7 +77,10 @@ func errName(err error) string {
 	return "non_rfc_error"
 }
 
-type Basic struct{ User, Pass string; Raw string }
+type Basic struct {
+	User, Pass string
+	Raw        string
+}
 
 func newHTTPRequest(method, path string, query url.Values, form url.Values, basic *Basic, bearer string) *http.Request {
 	target := "https://as.sim" + path
@@ -178,13 +181,13 @@ func guard(t *TaskCtx, f func() *Resp) (res *Resp) {
 
 // Consent describes what the simulated resource owner does at the authorization endpoint.
 type Consent struct {
-	Subject   string
-	Deny      bool
-	Scopes    []string // nil: grant everything requested
-	AuthAgo   int64    // seconds before the request at which the user authenticated (auth_time); <0: after request
-	NoAuthTime bool
-	PresetIDExp int64  // >0: session pre-sets the ID token expiry this many seconds from now
-	Extra     map[string]interface{}
+	Subject     string
+	Deny        bool
+	Scopes      []string // nil: grant everything requested
+	AuthAgo     int64    // seconds before the request at which the user authenticated (auth_time); <0: after request
+	NoAuthTime  bool
+	PresetIDExp int64 // >0: session pre-sets the ID token expiry this many seconds from now
+	Extra       map[string]interface{}
 }
 
 // newSession: the application sets the ID-token "alg" header to the algorithm of its signing key
